@@ -7,9 +7,10 @@ echo "$conf"
 mkdir -p "$here/seeded/$id"
 cp -r "$wt"/seed_out/* "$here/seeded/$id/"
 find "$here/seeded/$id" -size +300k -delete
-python3 - "$here/seeded/$id/meta.json" "$prop" "$needs" "$conf" "$wt" <<'PY'
+base=$(git -C "$wt" rev-parse --short HEAD)
+python3 - "$here/seeded/$id/meta.json" "$prop" "$needs" "$conf" "$wt" "$base" <<'PY'
 import json,sys
-json.dump({"property":sys.argv[2],"needs_to_manifest":sys.argv[3],"origin":"independent sub-agent given only the property text and a scratch worktree (%s)"%sys.argv[5],
+json.dump({"base_commit":sys.argv[6],"property":sys.argv[2],"needs_to_manifest":sys.argv[3],"origin":"independent sub-agent given only the property text and a scratch worktree (%s)"%sys.argv[5],
  "confirmed_in_scratch_worktree":json.loads(sys.argv[4]),
  "what_was_run":"tools/seedconfirm.sh: patch == worktree diff; cmake build; ctest (12 tests) </dev/null; demo.sh with the change (must fail) and after git apply -R (must pass)"},open(sys.argv[1],"w"),indent=1)
 PY
